@@ -4,6 +4,7 @@ import DoraModel.Props.C08.Cls3
 import DoraModel.Props.C08.Cls4
 import DoraModel.A64.Spec
 import DoraModel.A64.LogImm.All
+import DoraModel.Gen.A64ThmAll
 /-!
 # C08 — Every AArch64 instruction is encoded as the instruction that was requested
 
@@ -12,10 +13,14 @@ The 32 regular class encoders are in `Props/C08/Cls1..4.lean` (`<class>_sound`).
 split fields, the immediate encoders, signed-offset recovery (branches / load-store offsets), the
 reference decoder's agreement with the class fields on the register-31 rule.
 
-Not proved, only compared on every run (see the evidence file): the mov-immediate sequences
-(`mov_imm_size`, 3-instruction semantics), `ldr_mem_*`/`str_mem_*`, label resolution on whole scripts, and
-`decode (word) = Spec` per public method — these are checked by the oracles of checks/c08.py on the
-implementation's own bytes, and decoder/spec are validated against llvm-mc.
+Per public method (`<method>_ok`, "the emitted word decodes under the reference decoder to exactly the requested
+instruction", for all operands): GENERATED into `Gen/A64Thm*.lean` by tools/gen_c08_thms.py on every run and imported
+here through `Gen/A64ThmAll.lean`; the methods whose theorem the generic script does not close yet are listed in
+`Gen/A64Thm.json` (`unproved`) and in the evidence file.
+
+Not proved, only compared on every run (see the evidence file): `ldr_mem_*`/`str_mem_*`, label resolution on whole
+scripts, the unproved per-method statements — these are checked by the oracles of checks/c08.py on the implementation's
+own bytes, and decoder/spec are validated against llvm-mc.
 -/
 namespace Dora.A64.C08
 open Dora.A64
